@@ -471,7 +471,7 @@ def run(ctx):
         kids = root = {}
         for (op, d, mx, _, ea, eG, pa) in prog:
             gpos = [j for j, q in enumerate(pa["dims"]) if q["k"] in X.GRID_KINDS]
-            last_axis = X.base(op) in (set(X.TOPO) | set(X.REMAP) | {"integrate", "gradient", "difference"})
+            last_axis = X.base(op) in (set(X.TOPO) | set(X.REMAP))
             free = X.base(op) in X.FREE_OPS or (last_axis and not (gpos and gpos[0] == len(pa["dims"]) - 1)) or (op == "ds_remap_nn_face" and "c0" in mx)
             n = new_node(free, ea, eG)
             kids[(op, d, mx)] = n
@@ -662,6 +662,6 @@ def run(ctx):
     ctx.assumptions += [
         "plain xarray (installed version) is the value oracle for xarray operations",
         "grid handles are assigned by object identity in order of first appearance; a dim's symbolic length is the handle whose count it equals",
-        "uxarray's own last-axis operators (integrate, gradient, difference, topological_*, remap.*) are only prescribed when the grid dim is last; otherwise refusal or any consistent result is accepted",
+        "uxarray's last-axis operators topological_* and remap.* are only prescribed when the grid dim is last; otherwise refusal or any consistent result is accepted (integrate, gradient, difference are prescribed in every position)",
         "thorough: depth-3 programs are sampled (30000 of the scope) when the scope is larger; depth <= 2 is exhaustive in both tiers",
     ]
